@@ -60,7 +60,7 @@ impl<'ast> Visit<'ast> for Facts {
         if let syn::Expr::Path(p) = c.func.as_ref() {
             let last = path_last(&p.path);
             if last == "eval" && f.contains("private::eval::<") {
-                let mockfn = f.split("eval::<").nth(1).unwrap_or("").trim_end_matches('>').to_string();
+                let mockfn = { let t = f.split("eval::<").nth(1).unwrap_or(""); t.strip_suffix('>').unwrap_or(t).to_string() };
                 self.fact(format!("eval mockfn={} self={} params={}", mockfn, args.first().cloned().unwrap_or_default(), args.get(1).cloned().unwrap_or_default()));
             } else if f == "__answer_fn" {
                 self.fact(format!("call answer self={} args={}", args.first().cloned().unwrap_or_default(), args[1.min(args.len())..].join(",")));
